@@ -11,9 +11,11 @@
    <<dir, levels, limit, a, b, file, deltas>>. *)
 EXTENDS HistoryGenLib, Json, IOUtils
 Cases == {[par |-> x[1], t |-> x[2]] : x \in Branches}
+\* one initial state per graph (cheap), its cases as successor states: TLC's workers share the law evaluation
 VARIABLE c
-Init == c \in Cases
-Next == UNCHANGED c
+Init == c \in {[par |-> P, t |-> -1] : P \in Graphs2}
+Next == c.t = -1 /\ c' \in {[par |-> c.par, t |-> t] : t \in TipsOf(c.par)}
+IsCase == c.t # -1
 \* a listing shaped like merge-sort output: newest mainline first, merged revisions (any order) at depth 1
 RECURSIVE Flat(_, _)
 Flat(P, lh) == IF lh = <<>> THEN <<>>
@@ -21,9 +23,9 @@ Flat(P, lh) == IF lh = <<>> THEN <<>>
                         merged == SetToSeq(MergedByF(P, m))
                     IN <<Row(m, <<Len(lh)>>, 0)>> \o [k \in DOMAIN merged |-> Row(merged[k], <<0, 1, merged[k]>>, 1)]
                        \o Flat(P, SubSeq(lh, 1, Len(lh) - 1))
-Closures(P) == {TouchClosure(P, T) : T \in SUBSET DOMAIN P}
+Closures(P) == {TouchClosure(P, T) : T \in {U \in SUBSET DOMAIN P : SingleOrigin(P, U)}}
 Files(P) == SetToSeq({VerOf(P, T) : T \in Closures(P)} \ {[k \in DOMAIN P |-> Null]})
-LawsHoldOnSpec ==
+LawsHoldOnSpec == IsCase =>
     LET P == c.par
         lh == LeftHand(P, c.t)
         rows == Flat(P, lh)
@@ -46,21 +48,27 @@ LawsHoldOnSpec ==
                 /\ \A r \in DOMAIN P : (v[r] = r) = (r \in C)
                 /\ \A r \in DOMAIN P : v[r] # Null => v[r] \in C \cap Anc0(P, r)
                 /\ \A m \in SeqRange(lh) \cap C : \E k \in DOMAIN FileMainline(P, c.t, v) : FileMainline(P, c.t, v)[k] = m
-WitnessNestedMerge == ~(\E r \in Anc0(c.par, c.t) \ LeftSet(c.par, c.t) : IsMerge(c.par, r))
-WitnessCarriedOver == ~(\E T \in SUBSET DOMAIN c.par : \E m \in LeftSet(c.par, c.t) \ TouchClosure(c.par, T) :
-                          IsMerge(c.par, m) /\ VerOf(c.par, T)[m] # Null /\ VerOf(c.par, T)[m] # VerOf(c.par, T)[c.par[m][1]])
+WNestedMerge(x) == \E r \in Anc0(x.par, x.t) \ LeftSet(x.par, x.t) : IsMerge(x.par, r)
+WCarriedOver(x) == \E T \in SUBSET DOMAIN x.par : \E m \in LeftSet(x.par, x.t) \ TouchClosure(x.par, T) :
+                          IsMerge(x.par, m) /\ VerOf(x.par, T)[m] # Null /\ VerOf(x.par, T)[m] # VerOf(x.par, T)[x.par[m][1]]
 Dirs == {"reverse", "forward"}
-ReqsOf(P, t, nfiles) ==
+ReqsOf(P, t) ==
     LET n == RevnoOf(P, t)
     IN {Req(dr, lv, 0, 0, 0, 0, TRUE) : dr \in Dirs, lv \in {0, 1, 2}}
        \cup {Req(dr, lv, lim, 0, 0, 0, TRUE) : dr \in Dirs, lv \in {0, 1}, lim \in {1, 2}}
        \cup {Req(dr, lv, 0, a, b, 0, TRUE) : dr \in Dirs, lv \in {0, 1, 2}, a \in 1..n, b \in 1..n}
        \cup {Req(dr, 0, 2, a, b, 0, TRUE) : dr \in Dirs, a \in 1..n, b \in 1..n}
-       \cup {Req(dr, lv, 0, 0, 0, f, dl) : dr \in Dirs, lv \in {0, 1}, f \in 1..nfiles, dl \in BOOLEAN}
+\* file requests (a file index, both matching algorithms, both directions, levels 0 and 1) are added by the harness
+\* for the files it samples from `files`
 ReqTuple(q) == <<q.dir, q.levels, q.limit, q.a, q.b, q.file, B2N(q.deltas)>>
 CaseRow(x) == LET fs == Files(x.par)
               IN [c |-> x, files |-> fs,
-                  reqs |-> SetToSeq({ReqTuple(q) : q \in {r \in ReqsOf(x.par, x.t, Len(fs)) : r.a <= r.b}})]
+                  reqs |-> SetToSeq({ReqTuple(q) : q \in {r \in ReqsOf(x.par, x.t) : r.a <= r.b}})]
+\* anti-vacuity: each of these must be reached by some case (checked in the export run: VF_WITNESSES)
+WitnessesReached ==
+    /\ \E x \in Cases : WNestedMerge(x)
+    /\ \E x \in Cases : WCarriedOver(x)
 Export == JsonSerialize(IOEnv.VF_OUT, SetToSeq({CaseRow(x) : x \in Sample(Cases)}))
 ASSUME IF "VF_OUT" \in DOMAIN IOEnv THEN Export ELSE TRUE
+ASSUME IF "VF_WITNESSES" \in DOMAIN IOEnv THEN WitnessesReached ELSE TRUE
 =============================================================================
